@@ -199,6 +199,8 @@ var solvers = []solverSpec{
 	}},
 }
 
+const solvers0Name = "z3-new"
+
 func solverVersions() map[string]string {
 	out := map[string]string{}
 	for _, s := range []struct{ n, a string }{{"z3-new", "--version"}, {"z3", "--version"}, {"cvc5", "--version"}} {
@@ -270,6 +272,10 @@ func runOne(ctx context.Context, sp solverSpec, file string, timeoutS int) (stat
 // once, first definite answer (unsat/sat) wins. mode "all": run all to
 // completion (thorough agreement check).
 func solve(file string, timeoutS int, all bool) SolverResult {
+	return solveWith(solvers, file, timeoutS, all)
+}
+
+func solveWith(solvers []solverSpec, file string, timeoutS int, all bool) SolverResult {
 	type r struct {
 		name, status, out string
 		dur               float64
@@ -282,7 +288,14 @@ func solve(file string, timeoutS int, all bool) SolverResult {
 		wg.Add(1)
 		go func(sp solverSpec) {
 			defer wg.Done()
-			st, out, d := runOne(ctx, sp, file, timeoutS)
+			t := timeoutS
+			if !all && sp.name == solvers0Name {
+				// the default configuration of the newest solver is the most dependable one on slow
+				// proofs (a refactored `imports` needs 17 s of it where the unchanged one needs 3):
+				// it gets three times the budget of the other members of the race
+				t = 3 * timeoutS
+			}
+			st, out, d := runOne(ctx, sp, file, t)
 			ch <- r{sp.name, st, out, d}
 		}(sp)
 	}
@@ -351,16 +364,10 @@ func solveFast(file string, timeoutS int, all bool) SolverResult {
 			return r
 		}
 	}
-	r := solve(file, timeoutS, all)
-	if !all && r.Status != "unsat" && r.Status != "sat" && timeoutS < 40 {
-		// inconclusive within the quick budget: before this is reported as an undischarged
-		// obligation, give the portfolio a longer run -- a loaded machine must not turn a slow
-		// proof into an alarm (the slowest obligations of the unchanged tree take 3-5 s)
-		r2 := solve(file, 40, false)
-		r2.Time += r.Time
-		return r2
-	}
-	return r
+	// (no second, longer attempt: the budgets are CPU time, so load cannot turn a slow proof into a
+	// timeout, and a failing obligation with quantifiers always runs into the budget -- a retry would
+	// double the time of every run on a tree that does violate a property)
+	return solve(file, timeoutS, all)
 }
 
 func writeFile(dir, name, content string) string {
